@@ -228,7 +228,7 @@ class Check:
                 if k not in self.known_hits:
                     self.known_hits.append(k)
                 return
-        if len(self.violations) < 50:
+        if len(self.violations) < 400:
             self.violations.append(v)
 
     # ---- finishing --------------------------------------------------------------------------
@@ -259,6 +259,11 @@ class Check:
             'samples': samples or [{'note': 'no case executed'}],
             'broken': self.broken[:5],
         }
+        if self.violations:
+            vc = {}
+            for v in self.violations:
+                vc[v['input_class']] = vc.get(v['input_class'], 0) + 1
+            cov['violation_classes'] = vc
         if extra_coverage:
             cov.update(extra_coverage)
         cov.update(self.notes)
